@@ -1,4 +1,5 @@
 import Driver.Text
+import Driver.Families
 namespace Ipp.Ops
 open Ipp Ipp.Gen Ipp.Text
 
@@ -59,6 +60,43 @@ def dispatch (op : String) (args : List SExp) : String :=
         let bytes := encodeMsg h gs
         s!"{bytesToHex bytes} {showParsed bytesToHex (parseFlat (bytes ++ pay))}"
      | _, _ => "(bad-arg)")
+  | "encoded", [m, .atom b] =>
+    (match readMsg m, hexToBytes b with
+     | some (h, gs), some bytes =>
+        let mine := encodeMsg h gs
+        let modelPart := if mine == bytes then "match" else s!"(model-bytes {bytesToHex mine})"
+        let canon : List Group := gs.map Group.canon
+        let specPart :=
+          match Spec.unser bytes with
+          | none => "(spec-fail not-rfc8010)"
+          | some (w, rest) =>
+            if !rest.isEmpty then "(spec-fail trailing-bytes)"
+            else if !Spec.wfWire w then "(spec-fail not-well-formed)"
+            else if Spec.ser w != bytes then "(spec-fail lengths-or-layout)"
+            else if !Spec.namesUnique w then "(spec-fail duplicate-names)"
+            else if showMsg (Spec.interp w).1 (Spec.interp w).2 != showMsg h canon then
+              s!"(spec-fail content {showMsg (Spec.interp w).1 (Spec.interp w).2})"
+            else "match"
+        s!"{modelPart} ## {specPart}"
+     | _, _ => "(bad-arg)")
+  | "wire", [w, .atom p] =>
+    (match readWMsg w, hexToBytes p with
+     | some w, some pay =>
+        let bytes := Spec.ser w ++ pay
+        let modelPart := showParsed bytesToHex (parseFlat bytes)
+        let specPart := if Spec.wfWire w then s!"(ok {showMsg (Spec.interp w).1 (Spec.interp w).2} rest={bytesToHex pay})" else "-"
+        s!"{modelPart} ## {specPart}"
+     | _, _ => "(bad-arg)")
+  | "bomb", [.atom kind, .atom n] =>
+    -- the list-based model is quadratic on some families; above 4096 elements only the implementation
+    -- side (and its oracles) runs, and run.py does not compare the line
+    (match n.toNat? with
+     | some k =>
+       if k > 4096 then "(model-skipped)" else
+       (match Families.family kind k with
+        | some b => Families.summary (parseFlat b)
+        | none => "(bad-arg)")
+     | none => "(bad-arg)")
   | "parse", [.atom h] =>
     (match hexToBytes h with
      | some b => showParsed bytesToHex (parseFlat b)
